@@ -351,6 +351,8 @@ def sorting(ctx) -> None:
         ok_idx = ok_idx and is_name(st.ast.targets[0].slice, cname)
     ctx.rep.check(ok_idx, rule, f"{f.qualname}/store-index", "the sorted group is stored for the group it was computed from, unconditionally", "the sorted group is stored under another index or only conditionally", where=w)
     val_raw, vat = fv.def_expr(val_raw, st.id)
+    if isinstance(val_raw, ast.Call) and call_fname(val_raw) in ("tuple", "list") and len(val_raw.args) == 1 and not val_raw.keywords and isinstance(val_raw.args[0], (ast.Tuple, ast.List)):
+        val_raw = ast.Tuple(elts=list(val_raw.args[0].elts), ctx=ast.Load())  # tuple([a, b, c]) is (a, b, c)
     if not (isinstance(val_raw, ast.Tuple) and len(val_raw.elts) == 3):
         ctx.rep.refuted(rule, f"{f.qualname}/triple", "the sorted group is not a (sources, destinations, volumes) triple", where=w)
         return
